@@ -14,6 +14,23 @@ for tc in ET.parse(out).getroot().iter("testcase"):
         passed.add(f"{tc.get('classname')}::{tc.get('name')}")
 os.unlink(out)
 missing = [t for t in base["stable_pass"] if t not in passed]
+if 0 < len(missing) <= 8:
+    # load-sensitive tests (wall-clock assertions, 5 s websocket timeouts) fail under -n 8 on a busy machine:
+    # re-run the files of the missing tests serially once and count what passes then
+    files = sorted({t.split("::")[0].rsplit(".", 1)[0].replace(".", "/") + ".py" for t in missing})
+    out2 = tempfile.mktemp(suffix=".xml", dir="/var/tmp")
+    subprocess.run(["/venv/bin/python", "-m", "pytest", "-q", "-p", "no:cacheprovider", "--timeout=900", f"--junitxml={out2}"] + files,
+                   cwd=os.environ.get("REPO_DIR", "/repo"), env=env, stdout=subprocess.DEVNULL, stderr=subprocess.DEVNULL)
+    try:
+        for tc in ET.parse(out2).getroot().iter("testcase"):
+            if not any(ch.tag in ("failure", "error", "skipped") for ch in tc):
+                passed.add(f"{tc.get('classname')}::{tc.get('name')}")
+        os.unlink(out2)
+    except Exception:
+        pass
+    still = [t for t in missing if t not in passed]
+    print(f"re-ran {files} serially: {len(missing) - len(still)} of {len(missing)} missing tests pass alone")
+    missing = still
 print(f"stable_pass={len(base['stable_pass'])} passed_now={len(passed)} missing={len(missing)}")
 for t in missing[:30]:
     print("  MISSING", t)
